@@ -708,7 +708,9 @@ class BuiltinMixin:
                 L = ctx.fresh('list_of_set', z3.SeqSort(srt))
                 x = z3.Const('x!ls', srt)
                 i, j = z3.Int('i!ls'), z3.Int('j!ls')
-                path.assume(z3.ForAll([x], z3.Contains(L, z3.Unit(x)) == z3.IsMember(x, v.t), patterns=[z3.Contains(L, z3.Unit(x))]))
+                # stated through the same set-of-a-sequence function that set(...) uses: set(list(s)) == s by one equation
+                as_set = self.seq_to_set(VSeq(L, v.elem_kind), path)
+                path.assume(as_set.t == v.t)
                 path.assume(z3.ForAll([i, j], z3.Implies(z3.And(0 <= i, i < j, j < z3.Length(L)), self.seq_nth(L, i) != self.seq_nth(L, j))))
                 ctx.assumptions.add('list(set): a sequence without repetitions whose elements are exactly those of the set, order unspecified')
                 return VSeq(L, v.elem_kind)
